@@ -92,22 +92,27 @@ def needs_escape(segs):
     return False
 
 
-def shape_of(segs, sep=None):
-    """Small class of an AST used to keep failure signatures narrow."""
+def shape_of(segs, sep=None, field=None):
+    """Small class of an AST used to keep failure signatures narrow.  When
+    the differing field is known, only that field's text is classified (a
+    peculiar attribute must not re-label a failure of the term)."""
     shapes = set()
     for s in segs:
         if s[0] == "collector":
             shapes.add("has-collector")
-            shapes.update(x for x in shape_of(s[2], sep).split("+")
+            shapes.update(x for x in shape_of(s[2], sep, field).split("+")
                           if x != "plain")
-        if s[0] == "search" and s[2] != "REGEX" and s[4] and \
+        if s[0] == "search" and field in (None, "search.term") and \
+                s[2] != "REGEX" and s[4] and \
                 s[4][0] in "'\"" and s[4][-1] == s[4][0]:
             shapes.add("term-wrapped-in-same-quote")
         if s[0] == "key" and ("\\/" in s[1] or "\\." in s[1]):
             shapes.add("backslash-before-a-separator")
-        if s[0] == "search" and ("\\/" in s[4] or "\\." in s[4]
-                                 or "\\/" in s[3] or "\\." in s[3]):
-            shapes.add("backslash-before-a-separator")
+        if s[0] == "search":
+            texts = {None: (s[3], s[4]), "search.term": (s[4],),
+                     "search.attr": (s[3],)}.get(field, (s[3], s[4]))
+            if any("\\/" in t or "\\." in t for t in texts):
+                shapes.add("backslash-before-a-separator")
     return "+".join(sorted(shapes)) or "plain"
 
 
@@ -160,7 +165,8 @@ def check_ast(segs, sep, style, res, source="grid"):
     if got != want:
         res.fail({"clause": "1-parse-gives-the-written-segments",
                   "field": _first_diff(want, got),
-                  "shape": shape_of(_diff_seg(want, got))}, case,
+                  "shape": shape_of(_diff_seg(want, got),
+                                    field=_first_diff(want, got))}, case,
                  "text %r\nwant %r\ngot  %r" % (text, want, got))
         return
     # (2) canonical string re-parses to the same segments and is a fixed point
@@ -177,7 +183,8 @@ def check_ast(segs, sep, style, res, source="grid"):
         res.fail({"clause": "2-canonical-string-reparses",
                   "why": "different-segments",
                   "field": _first_diff(want, got2),
-                  "shape": shape_of(_diff_seg(want, got2))}, case,
+                  "shape": shape_of(_diff_seg(want, got2),
+                                    field=_first_diff(want, got2))}, case,
                  "str() = %r\nwant %r\ngot  %r" % (s1, want, got2))
         return
     if s2 != s1:
